@@ -121,7 +121,7 @@ Proof.
   all: try (sat_decompose; plain_tac; fail).
   - (* Tick *) unfold tick. sat_split; plain_tac; try apply nom_contact.
   - (* InStun *) sat_decompose_role; plain_tac; try apply nom_dispatch_request; try apply nom_dispatch_success.
-  - apply nom_renominate.
+  - unfold renominate_op. sat_split; plain_tac; apply nom_renominate.
 Qed.
 
 (* ---- a lite agent in the controlled role never originates Binding requests -------------------------- *)
@@ -181,5 +181,5 @@ Proof.
   all: try (sat_decompose; quiet_tac; fail).
   - (* Tick *) unfold tick. sat_split; quiet_tac; try (apply lite_contact; exact Hl).
   - (* InStun *) sat_decompose_role; quiet_tac; try (apply lite_dispatch_request; exact Hl); try apply lite_dispatch_success.
-  - apply lite_renominate.
+  - unfold renominate_op. sat_split; quiet_tac; apply lite_renominate.
 Qed.
